@@ -58,29 +58,61 @@ def datasets(ctx, lib, n, count):
         if c and (not e or min(c)[0] < min(e) - 1e-9):
             needs_chain.add(min(c)[1])
     pri = [(p, i) for p, i in cand if i in needs_chain]
+    # variants whose recorded chain has two or more different steps (the order of composition matters); parameter-only trees allowed
+    multi = []
+    for i, (s, subs) in enumerate(zip(lib["all"], lib["subs"])):
+        ch = [c for c in subs if c.strip()]
+        if len(set(ch)) >= 2 and "nan" not in ch and 1 <= fitlib.nparams_of(s) <= 2 and "zoo" not in s:
+            multi.append(i)
+    # a transferred parameter that is tiny or huge: the unresolved-parameter / zero-snapping branches of the matching stage
+    def _sing(i):
+        return any(t in lib["all"][i] for t in ("1/a", "/a", "**(-", "inv("))
+    singular = [i for _, i in pri if _sing(i)] or [i for _, i in pri]
+    # ... preferably uniques ALL of whose variants are singular when the parameter is set to zero (no sibling can stand in)
+    allsing = [i for i in singular if all(_sing(j) for _, _, j in byu[lib["matches"][i]])]
+    if allsing:
+        singular = allsing
+    modes = ["chain", "extreme", "multi", "any", "extreme", "multi", "chain", "any"]
     out = []
     x = np.linspace(0.5, 3.0, 30)
     tries = 0
     while len(out) < count and tries < 200 and cand:
         tries += 1
-        if pri and (len(out) == 0 or rng.random() < 0.5):
+        mode = modes[(len(out) + tries // 12) % len(modes)]
+        scale = "moderate"
+        if mode == "multi" and multi:
+            i = multi[rng.randrange(len(multi))]
+        elif mode == "extreme" and singular:
+            i = singular[rng.randrange(len(singular))]
+            scale = "large" if sum(1 for d in out if d["mode"] == "extreme") % 2 == 0 else "small"
+        elif mode == "chain" and pri:
             _, i = pri[rng.randrange(len(pri))]
         else:
             _, i = cand[rng.randrange(min(len(cand), 40))] if rng.random() < 0.7 else cand[rng.randrange(len(cand))]
         s = lib["all"][i]
         k = fitlib.nparams_of(s)
-        th = [rng.choice([-1, 1]) * rng.uniform(0.5, 2.5) for _ in range(k)]
+        lo_, hi_ = {"moderate": (0.5, 2.5), "large": (20.0, 80.0), "small": (0.01, 0.05)}[scale]
+        th = [rng.choice([-1, 1]) * rng.uniform(lo_, hi_) for _ in range(k)]
         try:
             import mpmath as mp
             y0 = np.array([float(lo.eval_string(s, mp.mpf(float(xi)), [mp.mpf(t) for t in th])) for xi in x])
         except Exception:
             continue
-        if not np.all(np.isfinite(y0)) or np.ptp(y0) < 1e-3 or np.max(np.abs(y0)) > 1e3:
+        if not np.all(np.isfinite(y0)) or (np.ptp(y0) < 1e-3 and "x" in s) or np.max(np.abs(y0)) > 1e3:
+            continue
+        # the optimiser is an oracle of C04 (partial): truths with a singularity inside (or just outside) the data range give a
+        # needle optimum that multi-start BFGS does not find -- recorded as a known finding on one stored data set
+        # (harness/corpus/C04_pole.json); the generated data sets stay clear of that situation
+        try:
+            fine = np.array([float(lo.eval_string(s, mp.mpf(float(xi)), [mp.mpf(t) for t in th])) for xi in np.linspace(0.3, 3.2, 2000)])
+        except Exception:
+            continue
+        if not np.all(np.isfinite(fine)) or np.max(np.abs(fine)) > 3 * (1 + np.max(np.abs(y0))):
             continue
         noise = rng.choice([0.05, 0.2, 0.5])
         nrng = np.random.default_rng(rng.randrange(10 ** 9))
         y = y0 + nrng.normal(0, noise, size=len(x))
-        out.append({"truth_index": i, "truth": s, "needs_chain": i in needs_chain, "theta": th, "noise": noise, "x": x.tolist(), "y": y.tolist(), "sig": [noise] * len(x)})
+        out.append({"truth_index": i, "truth": s, "needs_chain": i in needs_chain, "mode": mode, "scale": scale, "chain": [c for c in lib["subs"][i] if c.strip()], "theta": th, "noise": noise, "x": x.tolist(), "y": y.tolist(), "sig": [noise] * len(x)})
     return out
 
 
@@ -89,7 +121,7 @@ def correspondence(ctx):
     import liboracle as lo
     rep = ctx.report
     ctx.runs = []
-    plan = [("core_maths", 3, 3), ("core_maths", 4, 3), ("ext_maths", 3, 2)] if ctx.quick else [("core_maths", 3, 4), ("core_maths", 4, 4), ("ext_maths", 3, 2), ("ext_maths", 4, 2), ("keep_duplicates", 3, 2), ("core_maths", 5, 1)]
+    plan = [("core_maths", 3, 2), ("core_maths", 4, 4), ("ext_maths", 4, 3)] if ctx.quick else [("core_maths", 3, 4), ("core_maths", 4, 4), ("ext_maths", 3, 2), ("ext_maths", 4, 2), ("keep_duplicates", 3, 2), ("core_maths", 5, 1)]
     work, repo = fitlib.work_repo(ctx.scratch, "c04")
     for runname, n, nds in plan:
         ok, err = fitlib.generate(repo, runname, [n])
@@ -122,6 +154,24 @@ def correspondence(ctx):
             elif final is None or cm is None or len(cm) != len(lib["aifeyn"]):
                 rep.fail("failing-input", "stage outputs missing or misaligned: codelen_matches rows %s vs functions %d" % (None if cm is None else len(cm), len(lib["aifeyn"])),
                          "C04:row-count", input={"basis": runname, "n": n, "dataset": ds})
+    # corpus: the stored data set of the known finding C04:optimiser:pole-inside-data-range (same stages, same checks in search())
+    cpath = os.path.join(esrv.VERIF, "harness", "corpus", "C04_pole.json")
+    if os.path.exists(cpath):
+        c = json.load(open(cpath))
+        ok, err = fitlib.generate(repo, c["basis"], [c["n"]])
+        if ok:
+            lib = lo.load_library(fitlib.libdir(repo, c["basis"], c["n"]), c["n"])
+            ti = [i for i, t in enumerate(lib["trees"]) if t == c["labels"]]
+            ddir = os.path.join(work, "data_corpus_pole")
+            fitlib.write_data(ddir, "d.txt", c["x"], c["y"], c["sig"])
+            res = fitlib.run_stages(repo, "gauss", ddir, "d.txt", "r", c["basis"], c["n"], seed=20261001 % 100000)
+            if ti and res[0][0] == 0:
+                final = fitlib.load_final(os.path.join(fitlib.outdir(ddir, "r"), "final_%d.dat" % c["n"]))
+                ds = {"truth_index": ti[0], "truth": c["truth"], "theta": c["theta"], "noise": c["noise"], "x": c["x"], "y": c["y"], "sig": c["sig"],
+                      "needs_chain": False, "mode": "corpus", "scale": "pole", "chain": []}
+                ctx.runs.append({"basis": c["basis"], "n": c["n"], "ds": ds, "final": final, "cm": None, "lib": lib,
+                                 "known_key": "C04:optimiser:pole-inside-data-range"})
+                rep.case(key=("corpus", "pole"), sample={"basis": c["basis"], "n": c["n"], "truth": c["truth"], "theta": c["theta"], "top": final[0] if final else None})
     shutil.rmtree(work, ignore_errors=True)
     rep.rule = ("real four-stage pipeline (Gaussian likelihood) on data sets with planted truths drawn from the library (variants with recoverable non-empty maps preferred), noise in {0.05,0.2,0.5}; "
                 "each final row re-evaluated independently; top row vs closed-form description length of every affine-in-parameter tree")
@@ -138,7 +188,7 @@ def search(ctx):
         x, y, sig = ds["x"], ds["y"], ds["sig"]
         base_in = {"basis": run["basis"], "n": n, "dataset": {k: ds[k] for k in ("truth", "theta", "noise", "x", "y", "sig")}}
         # (a) every row is reproducible
-        for row in final[: (25 if ctx.quick else 200)]:
+        for row in final:
             if not math.isfinite(row["DL"]):
                 continue
             if abs(row["DL"] - (row["nll"] + row["codelen"] + row["aifeyn"])) > 1e-8 * (1 + abs(row["DL"])):
@@ -157,7 +207,7 @@ def search(ctx):
             stats["planted_numeric"] = stats.get("planted_numeric", 0) + 1
             if final[0]["DL"] > nm["DL"] + 0.02 + 1e-3 * abs(nm["DL"]):
                 rep.fail("failing-input", "top-ranked DL %.6f exceeds the independently computed DL %.6f of the planted tree %r (%s)" % (
-                    final[0]["DL"], nm["DL"], lib["trees"][ti], lib["all"][ti]), "C04:beaten-by-enumerated-tree",
+                    final[0]["DL"], nm["DL"], lib["trees"][ti], lib["all"][ti]), run.get("known_key") or "C04:beaten-by-enumerated-tree",
                     input=dict(base_in, tree_index=ti, labels=lib["trees"][ti], string=lib["all"][ti]), observed=final[0], expected=nm)
                 continue
         # (b) top row vs independent description length of every affine-in-parameter tree
